@@ -64,7 +64,7 @@ OPS = st.one_of(
 
 PREFIX = st.sampled_from([[], [('metric', 0, 5, 'mean', 'cycle')], [('metric', 0, 7, 'mean', 'cycle'), ('timings',)],
                           [('timings',), ('metric', 1, 9, 'max', 'cycle'), ('metric', 0, 3, 'first', 'augmented')]])
-case_strategy = st.fixed_dictionaries({'phase': phase_strategy(),
+case_strategy = st.fixed_dictionaries({'phase': phase_strategy(), 'layout': st.sampled_from(['C', 'C', 'C', 'strided', 'readonly']),
                                        'ops': st.tuples(PREFIX, st.lists(OPS, min_size=1, max_size=10)).map(lambda t: list(t[0]) + t[1])})
 
 
@@ -100,7 +100,10 @@ def oracle(case, rec):
     K = len(segs)
     N = phase.size
     try:
-        cont = {'on': emd.cycles.Cycles(phase.copy(), use_cache=True), 'off': emd.cycles.Cycles(phase.copy(), use_cache=False)}
+        lay = case.get('layout', 'C')         # the phase held by the containers: an ordinary array, a strided view, read-only
+        rec.cls('phase-layout=' + lay)
+        cont = {'on': emd.cycles.Cycles(gens.relayout(phase.copy(), lay), use_cache=True),
+                'off': emd.cycles.Cycles(gens.relayout(phase.copy(), lay), use_cache=False)}
     except Exception as e:
         raise Violation('C15/Cycles/raises/' + type(e).__name__, repr(e))
     model = {}                      # name -> list of floats (model metrics)
